@@ -21,6 +21,7 @@ def make_psm_table(
     signal=2.0,
     tie_free=True,
     rowid=True,
+    letter_peptides=False,
 ):
     """rows: one per PSM; `rng` is a random.Random. Returns a DataFrame in PIN column order."""
     rows = []
@@ -41,6 +42,9 @@ def make_psm_table(
                 # distinct values: the row id lives in the low bits (still exact in float64/text)
                 feats = [v * 4096 + rid for v in feats]
             pep = rng.randrange(n_peptides)
+            if letter_peptides:
+                core = pep_letters(pep)
+                pname = core + "K" if target else core[::-1] + "K"
             rows.append(
                 dict(
                     SpecId=f"{'t' if target else 'd'}_{s}_{j}",
@@ -53,7 +57,7 @@ def make_psm_table(
                     charge=2 + (s % 2),
                     rowid=rid,
                     **{f"feat{f}": feats[f] for f in range(n_feat)},
-                    Peptide=("" if target else "decoy_") + f"PEP{pep}K",
+                    Peptide=pname if letter_peptides else ("" if target else "decoy_") + f"PEP{pep}K",
                     ModifiedPeptide=("" if target else "decoy_") + f"PEP{pep}K[{pep % 2}]",
                     Precursor=("" if target else "decoy_") + f"PEP{pep}K/{2 + (s % 2)}",
                     PeptideGroup=("" if target else "decoy_") + f"G{pep // 2}",
@@ -77,6 +81,28 @@ def make_psm_table(
     elif label_enc == "bool":
         df["Label"] = df["Label"].astype(bool)
     return df
+
+
+def pep_letters(pep: int) -> str:
+    """letters-only peptide core for peptide number `pep` (no K/R inside, so trypsin cleaves only after the final K)"""
+    digits = "ACDEFGHILM"
+    return "NQ" + "".join(digits[int(ch)] for ch in f"{pep:03d}") + "ST"
+
+
+def make_fasta(n_peptides: int, n_proteins: int, path, shared_every=5):
+    """target-only FASTA whose tryptic peptides are the letter peptides 0..n_peptides-1; every `shared_every`-th
+    peptide occurs in two proteins (shared), proteins get 2+ peptides each"""
+    prots = {j: [] for j in range(n_proteins)}
+    for p in range(n_peptides):
+        prots[p % n_proteins].append(p)
+        if shared_every and p % shared_every == 0:
+            prots[(p + 1) % n_proteins].append(p)
+    lines = []
+    for j, peps in prots.items():
+        seq = "".join(pep_letters(p) + "K" for p in peps) + "WWWWWWK"
+        lines.append(f">sp|PROT{j}|test protein {j}\n{seq}\n")
+    Path(path).write_text("".join(lines))
+    return path
 
 
 def write_table(df: pd.DataFrame, path: Path, row_group_size=None):
